@@ -564,7 +564,7 @@ pub mod fasta {
                     }
                     if !blank(line@) { lemma_fnb_here(ff, a + pos0, k); }
                 }
-//@at depth=2 kw=line_num nth=0 expect="line_num -= 1;"
+//@after_loop 1
             proof {
                 let (ff, a, bb) = (self.f(), self.base(), self.b());
                 let lp = bb.len() - last_line_len;
